@@ -249,3 +249,35 @@ fn btreeset_order_body() {
 }
 #[cfg(kani)] #[kani::proof] #[kani::unwind(6)] fn btreeset_order() { btreeset_order_body() }
 #[cfg(all(not(kani), psc_verif_replay))] #[test] fn replay_btreeset_order() { vk::load_replay(); btreeset_order_body() }
+
+// ---- C08: IoReader over a reader that delivers arbitrary short chunks decodes like the plain slice ------------
+pub struct Chunky<'a> { data: &'a [u8], pos: usize, chunk: usize }
+impl<'a> std::io::Read for Chunky<'a> {
+    fn read(&mut self, buf: &mut [u8]) -> std::io::Result<usize> {
+        let left = self.data.len() - self.pos;
+        let mut n = if buf.len() < left { buf.len() } else { left };
+        if n > self.chunk { n = self.chunk; }
+        let mut i = 0;
+        while i < n { buf[i] = self.data[self.pos + i]; i += 1; }
+        self.pos += n;
+        Ok(n)
+    }
+}
+fn ioreader_chunked_body() {
+    let bytes: [u8; 5] = [vk::any_u8(), vk::any_u8(), vk::any_u8(), vk::any_u8(), vk::any_u8()];
+    let len = vk::any_usize();
+    vk::assume(len <= 5);
+    let chunk = vk::any_usize();
+    vk::assume(chunk >= 1 && chunk <= 5);
+    let mut sl: &[u8] = &bytes[..len];
+    let a = <(u32, u8)>::decode(&mut sl);
+    let mut rd = IoReader(Chunky { data: &bytes[..len], pos: 0, chunk });
+    let b = <(u32, u8)>::decode(&mut rd);
+    match (a, b) {
+        (Ok(x), Ok(y)) => { assert!(x == y, "IoReader over a chunked reader decoded a different value than the slice"); assert!(rd.0.pos == len - sl.len(), "different number of bytes consumed"); }
+        (Err(_), Err(_)) => {}
+        _ => assert!(false, "IoReader over a chunked reader and the slice disagree on success"),
+    }
+}
+#[cfg(kani)] #[kani::proof] #[kani::unwind(8)] fn ioreader_chunked() { ioreader_chunked_body() }
+#[cfg(all(not(kani), psc_verif_replay))] #[test] fn replay_ioreader_chunked() { vk::load_replay(); ioreader_chunked_body() }
